@@ -225,6 +225,7 @@ def rep_of(kind, p, z):
 
 TAILS_ANY = ["", " ", "\n", "\t", "  ", " x", "x", ",", ";7", " 5", " -5", "-5", "+5", "/3", " /3", "  /  3", "/ -3", "/x", "/", " /",
              "5", "07", " \n", "\r\n", "a", "A", "/0"]
+TAILS_ANY += [c + "7" for c in "!\"#$%&'()*,.:;<=>?@[\\]^_`{|}~"] + ["e5", "E5", ".5", "p1", "l", "L", "u", "\x7f", "\x80"]
 TAILS_DBL = [t for t in TAILS_ANY if not t or t[0] not in ".eE0123456789"]
 
 
@@ -277,7 +278,7 @@ def main(tier, replay=None):
         "g++ / libstdc++ / libgmpxx of this machine for the implementation side",
     ]
     chk.assumptions = ["model is hand-written after givaro's I/O code; the tie is differential testing on generated values and texts",
-                       "the model follows the repaired behaviour of frag/C19.fix-1..3 (known findings until applied)",
+                       "the model follows the behaviour repaired by /repo commits 654e42a, 1791f55, 08a44d6 (frag/C19.fix-1..3)",
                        "domain-level I/O (write(os)/read(is) of ring objects) is outside the property"]
     # 1. proofs
     res = vf.coq_check_props(AREA)
@@ -380,7 +381,7 @@ def main(tier, replay=None):
             add("rat.strrt", "rat.strrt %d %d" % (n, d), "rat.rt %d %d -" % (n, d), n=n, d=d)
     for i in range(260 * S):
         if i % 2:
-            t = adversarial(rng, " \t\n+-//0123456789x", 10)
+            t = adversarial(rng, " \t\n+-//0123456789x:.,\\", 10)
         else:
             n, d = gen_rat(rng)
             t = rng.choice(["", " ", "\n"]) + str(n) + rng.choice(["", " ", "  "]) + "/" + rng.choice(["", " ", "  ", "\n", "-", "+"]) + str(d) + rng.choice(TAILS_ANY)
@@ -543,7 +544,12 @@ def main(tier, replay=None):
         try:
             import json
             rj = json.load(open(replay))
-            cases = [c["case"] for c in rj.get("failing_inputs", []) if isinstance(c.get("case"), dict) and "impl" in c["case"]] or cases
+            rc_ = [c["case"] for c in rj.get("failing_inputs", []) if isinstance(c.get("case"), dict) and "impl" in c["case"]]
+            for c in rc_:       # integers of more than 40 digits were stored as text
+                for k, v in list(c.get("spec", {}).items()):
+                    if isinstance(v, str) and k in ("z", "n", "d", "a", "p", "q", "old") and re.fullmatch(r"-?[0-9]+", v):
+                        c["spec"][k] = int(v)
+            cases = rc_ or cases
         except Exception as ex:
             vf.log("cannot read replay file: %s" % ex)
 
